@@ -24,8 +24,8 @@ import pyleg  # noqa: E402
 import runner  # noqa: E402
 from pybbi import decode as D  # noqa: E402
 
-QUICK_CASES = 600
-THOROUGH_CASES = 12000
+QUICK_CASES = 2000
+THOROUGH_CASES = 40000
 
 
 def judge_file(side_path, delete=True):
